@@ -186,6 +186,18 @@ func (w *World) ghostKeys(fn *ssa.Function, loc *CExpr, out map[string]bool) {
 	if loc.Kind != "sel" {
 		return
 	}
+	if cf := w.CFiles[funcPkgPath(fn)]; cf != nil {
+		found := false
+		for _, g := range cf.Ghosts {
+			if g.Name == loc.Name {
+				out["F:"+shortPkg(cf.Pkg)+"."+g.Type+"."+g.Name] = true
+				found = true
+			}
+		}
+		if found {
+			return
+		}
+	}
 	for _, cf := range w.CFiles {
 		for _, g := range cf.Ghosts {
 			if g.Name == loc.Name {
@@ -218,6 +230,11 @@ func (w *World) blockWriteKeys(b *ssa.BasicBlock, out map[string]bool) {
 					out["M:"+typeName(cc.Args[0].Type())] = true
 				}
 				continue
+			}
+			if !cc.IsInvoke() && cc.StaticCallee() == nil {
+				// call through a function value (the error callback): ghost event counters
+				out["G:ghost.cbcount"] = true
+				out["G:ghost.cbarg"] = true
 			}
 			for _, callee := range w.calleesOf(cc) {
 				for k := range w.writeKeys(callee) {
